@@ -117,38 +117,40 @@ theorem curPath_ok {E : Eqn → Prop} {f : Forest} (F : ForestOK E f) {a b : Cst
   unfold curPath at h
   split at h
   · cases h
-  · dsimp only at h
-    split at h
+  · split at h
     · cases h
-    · next hroot =>
-      simp only [Except.ok.injEq] at h
-      have hroot' : nodeAt (pathToRoot f a) ((pathToRoot f a).length - 1) =
-          nodeAt (pathToRoot f b) ((pathToRoot f b).length - 1) := Classical.not_not.mp hroot
-      have CA := pathGo_chain F f.length a
-      have CB := pathGo_chain F f.length b
-      have inv := lcaPos_inv (pathToRoot f a) (pathToRoot f b) (pathToRoot f a).length 1
-        ⟨Nat.le_refl 1, by simp [pathToRoot], by simp [pathToRoot], hroot'⟩
-      generalize lcaPos (pathToRoot f a) (pathToRoot f b) (pathToRoot f a).length 1 = pos at h inv
-      unfold pathToRoot at h inv
-      generalize pathGo f f.length a = ra at h inv CA
-      generalize pathGo f f.length b = rb at h inv CB
-      obtain ⟨p1, p2, p3, p4⟩ := inv
-      simp only [List.length_cons, List.drop_succ_cons, List.drop_zero] at h p2 p3 p4
-      have ka : ra.length + 1 - pos ≤ ra.length := by omega
-      have kb : rb.length + 1 - pos ≤ rb.length := by omega
-      rw [nodeAt_take a none ra _ ka, nodeAt_take b none rb _ kb] at p4
-      simp only [Option.some.injEq] at p4
-      have A := chainOK_chain (chainOK_take CA (ra.length + 1 - pos))
-      have B := chainOK_chain (chainOK_take CB (rb.length + 1 - pos))
-      subst h
-      constructor
-      · rw [← p4] at B
-        exact A.1.append B.1.reverse
-      · intro l hl
-        simp only [List.mem_append, List.mem_reverse] at hl
-        rcases hl with hl | hl
-        · exact A.2 l hl
-        · exact B.2 l hl
+    · dsimp only at h
+      split at h
+      · cases h
+      · next hroot =>
+        simp only [Except.ok.injEq] at h
+        have hroot' : nodeAt (pathToRoot f a) ((pathToRoot f a).length - 1) =
+            nodeAt (pathToRoot f b) ((pathToRoot f b).length - 1) := Classical.not_not.mp hroot
+        have CA := pathGo_chain F f.length a
+        have CB := pathGo_chain F f.length b
+        have inv := lcaPos_inv (pathToRoot f a) (pathToRoot f b) (pathToRoot f a).length 1
+          ⟨Nat.le_refl 1, by simp [pathToRoot], by simp [pathToRoot], hroot'⟩
+        generalize lcaPos (pathToRoot f a) (pathToRoot f b) (pathToRoot f a).length 1 = pos at h inv
+        unfold pathToRoot at h inv
+        generalize pathGo f f.length a = ra at h inv CA
+        generalize pathGo f f.length b = rb at h inv CB
+        obtain ⟨p1, p2, p3, p4⟩ := inv
+        simp only [List.length_cons, List.drop_succ_cons, List.drop_zero] at h p2 p3 p4
+        have ka : ra.length + 1 - pos ≤ ra.length := by omega
+        have kb : rb.length + 1 - pos ≤ rb.length := by omega
+        rw [nodeAt_take a none ra _ ka, nodeAt_take b none rb _ kb] at p4
+        simp only [Option.some.injEq] at p4
+        have A := chainOK_chain (chainOK_take CA (ra.length + 1 - pos))
+        have B := chainOK_chain (chainOK_take CB (rb.length + 1 - pos))
+        subst h
+        constructor
+        · rw [← p4] at B
+          exact A.1.append B.1.reverse
+        · intro l hl
+          simp only [List.mem_append, List.mem_reverse] at hl
+          rcases hl with hl | hl
+          · exact A.2 l hl
+          · exact B.2 l hl
 
 -- ---------------------------------------------------------------- the memo dictionary is well founded
 
